@@ -749,6 +749,8 @@ impl<Aux> Vm<'_, Aux> {
                     instr_execution::close_upvalues(self).map_err(|err| {
                         payload_to_error(err, *instr_ptr, &self.runtime_data.call_stack)
                     })?;
+                    // like Pop for uncaptured locals: the scope ends, the slot is released
+                    self.stack_pop();
                 }
             }
             debug!("Stack: {}", self.runtime_data.value_stack);
